@@ -38,15 +38,16 @@ VARIABLES tree,      \* Seq([kind, ch]) ; the root is the last node
           phase,     \* "build" | "ready"
           injected,  \* 0 or the injected seed
           wseed,     \* 0 or the worker seed after worker_init_fn
-          last       \* tokens drawn by the last call
-vars == <<tree, gen, origin, pos, gpos, gseed, phase, injected, wseed, last>>
+          last,      \* tokens drawn by the last call
+          ninj       \* number of injections / worker initialisations so far (bound)
+vars == <<tree, gen, origin, pos, gpos, gseed, phase, injected, wseed, last, ninj>>
 
 Node(k, ch) == [kind |-> k, ch |-> ch]
 Root == Len(tree)
 
 Init ==
   /\ tree = <<>> /\ gen = <<>> /\ origin = <<>> /\ pos = <<>>
-  /\ gpos = 0 /\ gseed = "boot" /\ phase = "build" /\ injected = 0 /\ wseed = 0 /\ last = <<>>
+  /\ gpos = 0 /\ gseed = "boot" /\ phase = "build" /\ injected = 0 /\ wseed = 0 /\ last = <<>> /\ ninj = 0
 
 \* constructors run bottom-up; a stochastic node seeds its generator from the global generator (get_rng_from_global)
 AddNode ==
@@ -67,14 +68,14 @@ AddNode ==
                  /\ gpos' = gpos + 1
             ELSE /\ gen' = Append(gen, 0)
                  /\ UNCHANGED <<origin, pos, gpos>>
-  /\ UNCHANGED <<gseed, phase, injected, wseed, last>>
+  /\ UNCHANGED <<gseed, phase, injected, wseed, last, ninj>>
 Finish ==
   /\ phase = "build" /\ tree # <<>>
   \* exactly one root: every other node is somebody's child
   /\ LET used == UNION {{tree[i].ch[j] : j \in 1..Len(tree[i].ch)} : i \in 1..Len(tree)}
      IN used = 1..(Len(tree) - 1)
   /\ phase' = "ready"
-  /\ UNCHANGED <<tree, gen, origin, pos, gpos, gseed, injected, wseed, last>>
+  /\ UNCHANGED <<tree, gen, origin, pos, gpos, gseed, injected, wseed, last, ninj>>
 
 \* nodes a generator handed to node n reaches (the forwarding rule of set_rng)
 RECURSIVE Reach(_)
@@ -86,25 +87,25 @@ Reach(n) ==
 
 \* something else uses the global generators (any amount)
 Perturb ==
-  /\ phase = "ready" /\ gpos < 6
+  /\ phase = "ready" /\ gpos < MaxNodes + 1
   /\ gpos' = gpos + 1
-  /\ UNCHANGED <<tree, gen, origin, pos, gseed, phase, injected, wseed, last>>
+  /\ UNCHANGED <<tree, gen, origin, pos, gseed, phase, injected, wseed, last, ninj>>
 
 SetRng(s) ==
-  /\ phase = "ready"
+  /\ phase = "ready" /\ ninj < 2
   /\ origin' = Append(origin, <<"inj", s>>) /\ pos' = Append(pos, 0)
   /\ gen' = [n \in 1..Len(tree) |-> IF n \in Reach(Root) THEN Len(origin) + 1 ELSE gen[n]]
-  /\ injected' = s /\ wseed' = 0 /\ last' = <<>>
+  /\ injected' = s /\ wseed' = 0 /\ last' = <<>> /\ ninj' = ninj + 1
   /\ UNCHANGED <<tree, gpos, gseed, phase>>
 
 \* DataLoader worker start: the global generator is re-seeded with the worker's seed, then worker_init_fn
 \* gives the root a generator drawn from it
 WorkerInit(ws) ==
-  /\ phase = "ready"
+  /\ phase = "ready" /\ ninj < 2
   /\ gseed' = ws /\ gpos' = 1
   /\ origin' = Append(origin, <<"worker", ws, 0>>) /\ pos' = Append(pos, 0)
   /\ gen' = [n \in 1..Len(tree) |-> IF n \in Reach(Root) THEN Len(origin) + 1 ELSE gen[n]]
-  /\ wseed' = ws /\ injected' = 0 /\ last' = <<>>
+  /\ wseed' = ws /\ injected' = 0 /\ last' = <<>> /\ ninj' = ninj + 1
   /\ UNCHANGED <<tree, phase>>
 
 \* the nodes that draw during one call of node n, in call order (patchwise calls its child twice)
@@ -123,12 +124,11 @@ Consume(ds, p, acc) ==
   ELSE LET g == gen[Head(ds)] IN
          Consume(Tail(ds), [p EXCEPT ![g] = @ + 1], Append(acc, <<origin[g], p[g]>>))
 Call ==
-  /\ phase = "ready" /\ Len(last) < 1 \/ TRUE
   /\ phase = "ready"
   /\ LET res == Consume(Draws(Root), pos, <<>>) IN
        /\ last' = res[1] /\ pos' = res[2]
-  /\ \A g \in 1..Len(pos) : pos[g] < 3            \* bound
-  /\ UNCHANGED <<tree, gen, origin, gpos, gseed, phase, injected, wseed>>
+  /\ \A g \in 1..Len(pos) : pos[g] < 2            \* bound
+  /\ UNCHANGED <<tree, gen, origin, gpos, gseed, phase, injected, wseed, ninj>>
 
 Next == AddNode \/ Finish \/ Perturb \/ (\E s \in {1, 2} : SetRng(s)) \/ (\E w \in {11, 12} : WorkerInit(w)) \/ Call
 Spec == Init /\ [][Next]_vars
